@@ -320,6 +320,21 @@ func (o *Op) Render(exports map[string]string) Request {
 			els[i] = o.Elements[i].bulkElement()
 		}
 		switch o.ContentType {
+		case "script-stream":
+			hdr["Content-Type"] = "application/vnd.formance.ledger.api.v2.bulk+script-stream"
+			sb := &strings.Builder{}
+			for i := range o.Elements {
+				e := &o.Elements[i]
+				sb.WriteString("//script")
+				if e.IK != "" {
+					sb.WriteString(" ik=" + e.IK)
+				}
+				sb.WriteString("\n" + e.Script + "\n//end\n")
+			}
+			r.Body = sb.String()
+			if r.Chunked == 0 {
+				r.Chunked = 1 << 20
+			}
 		case "json-stream":
 			hdr["Content-Type"] = "application/vnd.formance.ledger.api.v2.bulk+json-stream"
 			sb := &strings.Builder{}
